@@ -61,7 +61,7 @@ def gen_scale(rng: random.Random, tier: str) -> dict:
         if rng.random() < 0.5:
             flags["rescale" if fn == "standardize" else "scale"] = rng.choice([True, False, 3.0])
         if rng.random() < 0.5:
-            flags["ddof"] = rng.choice([0, 1, 1, 2]) if n > 2 else rng.choice([0, 1])
+            flags["ddof"] = rng.choice([0, 1, 1, 2, 0.5, 1.5]) if n > 2 else rng.choice([0, 1, 0.5])
     # follow-up vector on the same scale as the training vector
     s = float(np.std(x)) or 1.0
     m = float(np.mean(x))
